@@ -199,7 +199,7 @@ def run_history(ctx, seed_case):
         foreign = rng.choice(si.DIMENSIONS[foreign_dim])
         op = rng.choice(["lshift", "convert", "unitcall", "slot", "rshift", "get_in", "units", "unit_value", "str",
                          "repr", "float", "hash", "cmp_q", "cmp_num", "eqhash", "foreign_read", "foreign_label",
-                         "foreign_ctor", "library", "relabel_own"])
+                         "foreign_ctor", "library", "relabel_own", "foreign_unitcall", "foreign_argument"])
         ctx.count("ops")
         ctx.count("op_" + op)
         oplog.append(op)
@@ -207,16 +207,22 @@ def run_history(ctx, seed_case):
         if op in ("lshift", "convert", "unitcall", "relabel_own"):
             u = rng.choice(own)
             res = (q << Unit[u]) if op == "lshift" else q.convert(Unit[u]) if op == "convert" else Unit[u](q)
-            sh.display = u
+            # whether the conversion re-labels q itself or hands out a new object is not part of the statement (the code does
+            # the former, convert()'s docstring promises the latter): the *result* must display in u with the same magnitude
+            sh.display = q.units.name
             changed_display = True
             ctx.count("display_unit_changes")
-            if res is not q and bits(res.raw_value) != bits(sh.raw):
+            if res.units.name != u:
+                ctx.violation("convert.result-unit", f"{op} to {u} returned a quantity displaying in {res.units.name}", case)
+            if bits(res.raw_value) != bits(sh.raw) or bits(res.unit_value) != bits(sh.vals[u]):
                 ctx.violation("convert.magnitude", f"{op} to {u} returned a quantity of different magnitude", case)
         elif op == "slot":
             slots = [s for s, d in SLOTS.items() if d == sh.dim]
             s = rng.choice(slots)
-            getattr(PreferredUnits, s)(q)
-            sh.display = getattr(PreferredUnits, s).name
+            res = getattr(PreferredUnits, s)(q)
+            sh.display = q.units.name
+            if res.units is not getattr(PreferredUnits, s) or bits(res.raw_value) != bits(sh.raw):
+                ctx.violation("convert.result-unit", f"PreferredUnits.{s}(q) returned {res.units.name} / magnitude {res.raw_value!r}", case)
             changed_display = True
             ctx.count("display_unit_changes")
         elif op in ("rshift", "get_in"):
@@ -291,6 +297,46 @@ def run_history(ctx, seed_case):
             changed_display = True
             ctx.count("display_unit_changes")
             expect_conversion_error(ctx, lambda: q.unit_value, f"unit_value of a {sh.dim} labelled {foreign}", case)
+        elif op == "foreign_unitcall":
+            # Unit.X(q) / PreferredUnits.slot(q) with q of another dimension: whatever comes back must not read as a number
+            via_slot = rng.random() < 0.4
+            try:
+                if via_slot:
+                    slot = rng.choice([s for s, d in SLOTS.items() if d == foreign_dim])
+                    res = getattr(PreferredUnits, slot)(q)
+                    target = getattr(PreferredUnits, slot)
+                else:
+                    res = Unit[foreign](q)
+                    target = Unit[foreign]
+            except UnitConversionError:
+                ctx.count("foreign_reads_rejected")
+                res = None
+            sh.display = q.units.name
+            changed_display = True
+            ctx.count("display_unit_changes")
+            if res is not None:
+                for what, fn in (("unit_value", lambda: res.unit_value), (">>", lambda: res >> target), ("str", lambda: str(res))):
+                    expect_conversion_error(ctx, fn, f"{what} of {'PreferredUnits.slot' if via_slot else 'Unit.' + target.name}({sh.dim} quantity)", case)
+        elif op == "foreign_argument":
+            # a quantity of the wrong dimension handed to a library constructor: reading the stored field must raise
+            try:
+                if foreign_dim == "Distance":
+                    obj, field, unit = Atmo(altitude=q), "altitude", Unit.Foot
+                elif foreign_dim == "Velocity":
+                    obj, field, unit = Wind(velocity=q), "velocity", Unit.FPS
+                elif foreign_dim == "Angular":
+                    obj, field, unit = Weapon(zero_elevation=q), "zero_elevation", Unit.Radian
+                elif foreign_dim == "Temperature":
+                    obj, field, unit = Ammo(DragModel(0.3, pb.TableG7), 800, powder_temp=q), "powder_temp", Unit.Celsius
+                else:
+                    obj = None
+            except (UnitConversionError, ZeroDivisionError, ValueError, TypeError, OverflowError):
+                ctx.count("foreign_reads_rejected")
+                obj = None
+            sh.display = q.units.name          # the constructor may have re-labelled its argument before refusing it
+            if obj is not None:
+                stored = getattr(obj, field)
+                expect_conversion_error(ctx, lambda: stored >> unit, f"{type(obj).__name__}.{field} built from a {sh.dim} quantity, read in {unit.name}", case)
         elif op == "foreign_ctor":
             cls = getattr(pb, sh.dim)
             expect_conversion_error(ctx, lambda: cls(1.5, Unit[foreign]), f"{sh.dim}(1.5, {foreign})", case)
